@@ -577,7 +577,7 @@ def run_projects621(ctx: core.Ctx, projects: list[dict[str, Any]], stream: str) 
                     continue
                 want, got = any(dv), any(ev)
                 if want != got:
-                    own_extra = any(x is not None and ";" in t and "extra" in t.split(";", 1)[1] for t, x in group)
+                    own_extra = any(x is not None and ";" in t and G.mentions_extra(t.split(";", 1)[1]) for t, x in group)
                     ctx.violate(KNOWN_OPT_EXTRA if own_extra else f"selection621:{nm}:{sorted(t for t, _ in group)}",
                                 f"[project] declares {group} for {nm}; Requires-Dist has {emitted}: reference selects={got} for version {cv} on "
                                 f"py={e['python_full_version']} platform={e['sys_platform']} extras={e['extra']}, the declaration says {want}", wit)
